@@ -28,4 +28,9 @@ theorem holds_check_before_launch (c : Config) (e : Ext) (s : SecureCfg) (hs : c
     t = [] ∨ (∃ r, t = [.check r]) ∨ t = [.check (.ok true), .launch] :=
   check_before_launch _ facts_good c e s hs
 
+theorem check_facts_good : Facts.secureCheck.Good := by decide
+
+theorem holds_whole_file_hashed (b : Bytes) : Secure.hashedPart Facts.secureCheck b = b :=
+  Props.C13.whole_file_hashed _ check_facts_good b
+
 end GoPlugin.Instance.C13
